@@ -150,6 +150,7 @@ def search_property(pid, rep, replay=None):
     elif pid == "C08":
         stats, kinds, cases = searchchk.check_depth_limit(rep, tier, rep.seed)
         sessionchk.check_combined_limits(rep, "C08", stats)
+        sessionchk.check_deep_tiny(rep, "C08", stats)
         rule = "search to depth a then limit b<a on the same table, depth 0 and 200, unlimited runs on tiny trees under a poll budget, checked build; distinct = searches"
         distinct = stats.get("searches", 0)
     elif pid == "C09":
